@@ -366,6 +366,26 @@ def eval_case(ctx, c, ens, probs):
                 raise
             except BaseException:  # noqa: BLE001
                 pass
+        elif np.isfinite(err) and err < 1e-3:
+            # any other inner initializer that reaches qclib.unitary (IsometryInitialize csd / knill, ...): the same Qiskit defect if the
+            # same construction is exact once qiskit's private _apply_a2 is the identity
+            import qclib.unitary as qu
+            orig = qu._apply_a2
+            try:
+                qu._apply_a2 = lambda circuit: circuit
+                circ2, _ = build(ens, probs, c["initializer"], c.get("opt_params"), c["classical"], False, "constructor",
+                                 c["as_lists"], c["probs_array"])
+                psi2 = Statevector.from_label("0" * circ2.num_qubits).evolve(circ2).data
+                rho2, _ = reduced_from_vector(psi2, na)
+                if float(np.abs(rho2 - ref).max()) <= 1e-9:
+                    suffix = " [inner initializer accuracy: exact when qiskit's _apply_a2 is the identity]"
+                    case["cause"] = "qiskit_apply_a2"
+            except (KeyboardInterrupt, SystemExit):
+                raise
+            except BaseException:  # noqa: BLE001
+                pass
+            finally:
+                qu._apply_a2 = orig
         ctx.violation(f"{tag}: reduced state of the data qubits differs from sum_i p_i|psi_i><psi_i| by {err:.3g}{suffix}", case)
         ok = False
     if c["reset"] and na > 0:
